@@ -263,3 +263,87 @@ def items_with_common_values(prop):
                 ("if key not in excluded_keys:", "if key in excluded_keys:"),
                 ("common_attrs[key].append(val)", "common_attrs[key] = [val]")],
     )
+
+
+# ------------------------------------------------------------------ make_residue_graph: the three steps chained
+def setup_mrg(cx):
+    from pyvc.builtins import setitem
+    RN = cx.val('RESNODES', TSeq(TInt))                     # the nodes of the partitioned graph, in order
+    cx.spec_env['RESNODES'] = RN
+    common = cx.uf('common_of', [TInt], AttrMap)            # _items_with_common_values(<graph of residue r>, excluded_keys=['graph'])
+    base = cx.uf('base_of', [TInt], AttrMap)                # what partition_graph stored on the node (graph, nnodes, nedges, density)
+    r_ = z3.Int('mr')
+    cx.assume(z3.ForAll([r_], z3.And(AttrMap.inv(common(r_)), AttrMap.inv(base(r_)))))
+    RESATTR = cx.heap('RESATTR', cx.box('RESATTR', TMap(TInt, AttrMap)))
+    graph, attrs = Obj('Graph'), Obj('attrs')
+    groups = Obj('residue_idxs')
+    groups_values = Obj('residue_idxs.values')
+    groups.attrs['values'] = Builtin(lambda e: groups_values, 'residue_idxs.values')
+    cx.spec_env['collect_residues'] = Builtin(
+        lambda e, g, a: groups if (g is graph and a is attrs) else (_ for _ in ()).throw(EngineError('collect_residues of something else')), 'collect_residues')
+
+    def res_node(e, r):
+        re_ = to_z3(r, TInt)
+        sub = Obj('subgraph')
+        sub.__dict__['res'] = re_
+
+        def update(e2, other):
+            cur = to_z3(getitem(e2, RESATTR, SV(TInt, re_)), AttrMap)
+            oe = to_z3(other, AttrMap)
+            new = e2.fresh(AttrMap, 'updated')
+            x = z3.FreshConst(GAttr.sort(), 'ux')
+            e2.assume(z3.ForAll([x], z3.And(AttrMap.has(new, x) == z3.Or(AttrMap.has(cur, x), AttrMap.has(oe, x)),
+                                            AttrMap.at(new, x) == z3.If(AttrMap.has(oe, x), AttrMap.at(oe, x), AttrMap.at(cur, x)))))
+            e2.assume(AttrMap.inv(new))
+            setitem(e2, RESATTR, SV(TInt, re_), SV(AttrMap, new))
+        return Obj('resattrs', update=Builtin(update, 'res_node.update'),
+                   __getitem__=Builtin(lambda e2, k: sub if k == 'graph' else (_ for _ in ()).throw(EngineError('res_node[%r]' % (k,))), 'res_node[]'))
+    from pyvc.builtins import getitem
+    res_graph = Obj('res_graph', nodes=Obj('NodeView', __getitem__=Builtin(res_node, 'res_graph.nodes[]')))
+    res_graph.__dict__['iter'] = RN
+    cx.spec_env['RES_GRAPH'] = res_graph
+    def pg(e, g, parts):
+        # the wiring this contract is about: the graph is partitioned into the groups collect_residues found
+        e.oblige(g is graph and parts is groups_values, 'partition:of-the-collected-groups')
+        return res_graph
+    cx.spec_env['partition_graph'] = Builtin(pg, 'partition_graph')
+
+    def iwcv(e, sub, excluded_keys=None):
+        ok = False
+        if isinstance(excluded_keys, Box) and excluded_keys.ty == TSeq(TStr):
+            st = TSeq(TStr)
+            n, first = z3.simplify(st.len(excluded_keys.e)), z3.simplify(st.at(excluded_keys.e, 0))
+            ok = z3.is_int_value(n) and n.as_long() == 1 and z3.is_string_value(first) and first.as_string() == 'graph'
+        # the contract of _items_with_common_values is used for the exclusion list ['graph'] only; any other list fails the obligation
+        e.oblige(ok, 'excluded-keys:is-graph-only')
+        return SV(AttrMap, common(sub.__dict__['res']))
+    cx.spec_env['_items_with_common_values'] = Builtin(iwcv, '_items_with_common_values')
+    cx.spec_env['base_is'] = None
+    return dict(graph=graph, attrs=attrs)
+
+
+def make_residue_graph(prop):
+    return FunctionContract(
+        F, 'make_residue_graph', prop, setup=setup_mrg, spec_env=dict(GAttr=GAttr),
+        requires=["forall(lambda i, j: implies(0 <= i and i < j and j < len(RESNODES), RESNODES[i] != RESNODES[j]))",
+                  "forall(lambda i: implies(0 <= i and i < len(RESNODES), RESNODES[i] in RESATTR))"],
+        ensures=[
+            # the residue graph is partition_graph(graph, collect_residues(graph, attrs).values()) - both proved above -, and every
+            # residue node is given, on top of what partition_graph stored, the attributes that all atoms of the residue share
+            # (_items_with_common_values of the residue's own graph, 'graph' excluded - proved above)
+            "result is RES_GRAPH",
+            "forall(lambda i, x: implies(0 <= i and i < len(RESNODES), (x in RESATTR[RESNODES[i]]) == (x in old(RESATTR)[RESNODES[i]] or x in common_of(RESNODES[i])) and "
+            "   implies(x in RESATTR[RESNODES[i]], RESATTR[RESNODES[i]][x] == (common_of(RESNODES[i])[x] if x in common_of(RESNODES[i]) else "
+            "   old(RESATTR)[RESNODES[i]][x]))), TInt, GAttr)",
+        ],
+        modifies=['RESATTR'],
+        loops={'L1': LoopSpec(inv=[
+            "forall(lambda i, x: implies(0 <= i and i < _i, (x in RESATTR[RESNODES[i]]) == (x in old(RESATTR)[RESNODES[i]] or x in common_of(RESNODES[i])) and "
+            "   implies(x in RESATTR[RESNODES[i]], RESATTR[RESNODES[i]][x] == (common_of(RESNODES[i])[x] if x in common_of(RESNODES[i]) else "
+            "   old(RESATTR)[RESNODES[i]][x]))), TInt, GAttr)",
+            "forall(lambda i: implies(_i <= i and i < len(RESNODES), RESNODES[i] in RESATTR and RESATTR[RESNODES[i]] == old(RESATTR)[RESNODES[i]]))",
+            "forall(lambda i: implies(0 <= i and i < len(RESNODES), RESNODES[i] in RESATTR))"],
+            modifies=['RESATTR'])},
+        canary=[("excluded_keys=['graph']", "excluded_keys=[]"),
+                ("res_graph = partition_graph(graph, residue_idxs.values())", "res_graph = partition_graph(graph, residue_idxs)")],
+    )
